@@ -12,14 +12,14 @@ check('C31', title='Timer events fire no earlier than scheduled and in due order
                 'virtual time, for every caller script up to a length; oracle on the callback log of every complete execution',
       design_ref='DESIGN.md §3 C31, §2.3',
       text='A real Timer<Mon> with granularity 1 ms runs its real thread body; the main thread executes a script, a sequence of steps from {schedule a one-shot event, schedule a repeating event whose callback '
-           'returns true / returns false on its 1st / on its 2nd run} x delay {1,2,5} ms, sleep {1,3} ms, clear() (15 step kinds), then sleeps to the horizon (12 ms), calls stop(), join() and destroys the timer. '
+           'returns true / returns false on its 1st / on its 2nd run, schedule a one-shot event whose callback takes 2 ms} x delay {1,2,5} ms, sleep {1,3} ms, clear() (18 step kinds), then sleeps to the horizon (12 ms), calls stop(), join() and destroys the timer. '
            'Every script up to the length bound is enumerated (scripts are the sharded outer dimension) and for each script every schedule of the two threads with at most b preemptions is executed. '
            'Callbacks record (event, virtual time, global sequence). Checked per execution: every run is at or after its due time (schedule() call + delay; for a repeat: previous run + interval); when a callback '
            'runs, no other event pending at that moment has an earlier due time (ties either way); a one-shot event runs at most once, a repeating event never runs again after its callback returned false; no event '
            'whose schedule() had returned before clear() was called runs after that clear() returned; an event still pending when stop() is called was due less than 2 granules before (bounded reading of '
            '"pending events run"); the execution ends (no deadlock, livelock, crash, sanitizer report, thread left behind). Part tsan repeats the schedules of the short scripts under ThreadSanitizer (the timer\'s queue is shared between the caller and the timer thread and must only be touched under its lock).',
-      level_note='quick: all 3 616 scripts of length <= 3 at preemption bound 2 (plus the default schedule of every script of length <= 2 under ASan with a freshly created timer thread per execution); thorough: all 54 241 scripts of '
-                 'length <= 4 at bound 3 and all 759 375 scripts of length 5 at bound 1 (ASan: length <= 2 at bound 1; a thread creation under ASan costs 10-20 ms here, hence the small ASan parts). Every bound named is run to completion (exhaustive:true) unless the '
+      level_note='quick: all 6 175 scripts of length <= 3 at preemption bound 2 (plus the default schedule of every script of length <= 2 under ASan with a freshly created timer thread per execution); thorough: all scripts of '
+                 'length <= 4 at bound 3 and all scripts of length 5 at bound 1 (ASan: length <= 2 at bound 1; a thread creation under ASan costs 10-20 ms here, hence the small ASan parts). Every bound named is run to completion (exhaustive:true) unless the '
                  'evidence says otherwise. Delays are 1, 2, 5 ms of the property\'s 1-200 ms; one caller thread; callbacks take no virtual time; timeToWait = 0 (documented as ignored) is not in the space.',
       rule='execution = one complete schedule of one script; distinct by construction; non-trivial = at least one preemption. Counters: scripts, schedules, distinct (script, callback log) pairs, '
            'shards_completed_bound_b = shards (of 16) that finished every script of theirs at bound b',
